@@ -31,7 +31,7 @@ extern bool g_force_user_workspace;
 
 struct ExecCfg {
     bool chk_structure = true, chk_identity = true, chk_residual = true;
-    bool chk_query_pure = false;   // C08: a size query leaves every other argument as it was
+    bool chk_query_pure = true;    // a size query leaves every other argument as it was (every workload; C08 states it, C06 histories and C19 lifecycles rely on it)
     bool chk_resolve_pure = true;  // re-solving never alters the factors
     bool capture = true;           // record bit-level snapshots of every output
     bool capture_clock = false;    // include stat->utime (simulated clock) in the snapshot
@@ -195,6 +195,22 @@ template <class K> struct World {
         if (!s.ws.contains(Ls->nzval, (size_t)Ls->nzval_colptr[n] * sizeof(S))) return "lusup outside the caller workspace";
         if (!s.ws.contains(Us->rowind, (size_t)Us->colptr[n] * sizeof(int_t))) return "usub outside the caller workspace";
         if (!s.ws.contains(Us->nzval, (size_t)Us->colptr[n] * sizeof(S))) return "ucol outside the caller workspace";
+        return "";
+    }
+
+    // Carried state of a caller workspace (GlobalLU_t::stack, handed back by SamePattern_SameRowPerm calls): after a factorization
+    // that returned factors the temporary tail has been released and the accounting describes exactly the factor arrays -
+    // otherwise later re-use steps inherit a stack that looks fuller (or emptier) than it is
+    std::string check_stack(Slot<K> &s) {
+        const LU_stack_t &st = s.Glu.stack; long sz = (s.lu_lwork / 4) * 4; char b[256];
+        if ((long)st.size != sz || (long)st.top2 != (long)st.size || (long)st.used != (long)st.top1 || st.top1 < 0 || (long)st.top1 > sz) {
+            snprintf(b, sizeof b, "workspace accounting after the call: size %ld top1 %ld top2 %ld used %ld (lwork %ld): used must equal top1 and top2 must equal size once the work arrays are released", (long)st.size, (long)st.top1, (long)st.top2, (long)st.used, (long)s.lu_lwork);
+            return b; }
+        if (st.array != (void *)s.ws.work) return "workspace accounting: stack.array is not the caller's work";
+        const SCformat *Ls = (const SCformat *)s.L.Store; const NCformat *Us = (const NCformat *)s.U.Store; int n = s.n;
+        const unsigned char *top = s.ws.work + st.top1;
+        struct { const void *p; size_t bytes; } arr[] = {{Ls->rowind, (size_t)Ls->rowind_colptr[n] * sizeof(int_t)}, {Ls->nzval, (size_t)Ls->nzval_colptr[n] * sizeof(S)}, {Us->rowind, (size_t)Us->colptr[n] * sizeof(int_t)}, {Us->nzval, (size_t)Us->colptr[n] * sizeof(S)}};
+        for (auto &a : arr) if ((const unsigned char *)a.p + a.bytes > top) return "workspace accounting: a factor array extends beyond stack.top1";
         return "";
     }
 
@@ -532,6 +548,7 @@ template <class K> struct World {
                 serr = check_structure<K>(&s.L, &s.U, n, n, weak ? nullptr : s.perm_r, weak ? nullptr : s.perm_c, ilu, caps_of(s), weak);
                 if (!serr.empty() && !weak) viol(r, "structure:" + serr.substr(0, serr.find(' ')), serr);
                 else if (s.lu_lwork > 0) { serr = check_lu_arrays_inside_workspace(s); if (!serr.empty()) viol(r, "workspace", serr); }
+                if (serr.empty() && s.lu_lwork > 0 && factored_now && (r.cls == XC_OK || r.cls == XC_ILLCOND)) { std::string e = check_stack(s); if (!e.empty()) viol(r, "stack-accounting", e); }
             }
             if (serr.empty() && cfg.capture && (r.cls != XC_SINGULAR || ilu)) snap_lu(s, sn);
         }
@@ -803,6 +820,7 @@ template <class K> struct World {
                 serr = check_structure<K>(&s.L, &s.U, m, n, weak ? nullptr : s.perm_r, weak ? nullptr : s.perm_c, ilu, caps_of(s), weak);
                 if (!serr.empty() && !weak) viol(r, "structure:" + serr.substr(0, serr.find(' ')), serr);
                 else if (s.lu_lwork > 0) { serr = check_lu_arrays_inside_workspace(s); if (!serr.empty()) viol(r, "workspace", serr); }
+                if (serr.empty() && s.lu_lwork > 0 && r.cls == XC_OK && m == n) { std::string e = check_stack(s); if (!e.empty()) viol(r, "stack-accounting", e); }
             }
             if (serr.empty() && cfg.capture && r.cls == XC_OK) { sn.add("perm_c", s.perm_c, n * sizeof(int)); sn.add("etree", s.etree, n * sizeof(int)); sn.add("perm_r", s.perm_r, m * sizeof(int)); snap_lu(s, sn); snap_A(s, sn, "post"); sn.val("stat.expansions", a.stat.expansions); }
             if (serr.empty() && !ilu && r.cls == XC_OK && cfg.chk_identity && std::max(m, n) <= cfg.dense_limit) {
@@ -1082,7 +1100,13 @@ template <class K> struct World {
                 mprotect(ro, lv + lr + lc, PROT_READ);
             }
             a.iopt = 1; a.n = M.n; a.nnz = M.nnz(); a.nrhs = 0; a.values = ro_v; a.rowind = ro_r; a.colptr = ro_c; a.b = nullptr; a.ldb = M.n;
+            // the handle argument is an output of a factor request: the caller's variable may still hold anything - zero, the (saved)
+            // handle of another live factorization as in FORTRAN/test_omp.F, or junk
             h.f = 0;
+            { int mode = (int)(o.rhs_seed % 5);
+              if (mode == 2 || mode == 3) { std::vector<fptr> others; for (size_t q = 0; q < handles.size(); q++) if ((int)q != o.handle && handles[q].live && handles[q].f) others.push_back(handles[q].f);
+                  if (!others.empty()) h.f = others[(size_t)((o.rhs_seed >> 8) % others.size())]; }
+              else if (mode == 4) h.f = (fptr)0x5A5A5A5A5A5A0001LL; }
             rt_op_begin(ctx, (int)trace.size() - 1, o.faults);
             int esc = guarded(body_bridge, &a);
             rt_op_end(ctx);
